@@ -610,7 +610,9 @@ def _peak_is_too_narrow(
 ) -> bool:
     fwhm = peak.fwhm(popt)
     coord = data.coords[data.dim]
-    center_idx = np.argmin(abs(coord.values - popt['peak_loc'].values))
+    center_idx = int(np.argmin(abs(coord.values - popt['peak_loc'].values)))
+    # Stay inside the window when the peak is closest to the first or last point.
+    center_idx = min(max(center_idx, 1), len(coord) - 2)
     # Average of bins around center index.
     # Bins don't normally vary quickly, so this is a good approximation.
     bin_width = (coord[center_idx + 1] - coord[center_idx - 1]) / 2
